@@ -203,6 +203,9 @@ bool File::rename(const String& from, const String& to, bool failIfExists)
 #else
   if(failIfExists)
   {
+    struct stat fromStat;
+    if(lstat(from, &fromStat) != 0)
+      return false; // without a source the placeholder must not be created (it would make rename(x, x) succeed)
     int fd = ::open(to, O_CREAT | O_EXCL | O_CLOEXEC, S_IRUSR | S_IWUSR | S_IRGRP | S_IROTH);
     if(fd == -1)
       return false;
